@@ -185,5 +185,48 @@ fn xread_pairs<'a>(storage: &XStore, db: usize, parts: &'a [RespFrame], i: usize
         (parts@.len() - i) % 2 != 0 ==> (r matches Ok(f) && f is Error),
 //@@ body
 //@@ end
+// ======================= XADD with an explicit id: from the argument bytes to the id (C06 / C15) =========================
+/// strict UTF-8 decoding (`std::str::from_utf8`, RPCALL site) and the id a text spells (`StreamId::from_string` on a &str, RPCALL site; its
+/// component parser is unit sid_parse_u64_fast of c16_pel) — uninterpreted functions of the bytes / the text
+pub uninterp spec fn spec_utf8_text(b: Seq<u8>) -> Option<Seq<char>>;
+pub uninterp spec fn sid_parse_text(s: Seq<char>) -> Option<StreamId>;
+pub struct Utf8Err { pub g: Ghost<int> }
+#[verifier::external_body]
+pub fn verif_str_from_utf8<'a>(b: &'a Vec<u8>) -> (r: std::result::Result<&'a str, Utf8Err>)
+    ensures match spec_utf8_text(b@) { Some(s) => r matches Ok(t) && t@ == s, None => r is Err },
+{ unimplemented!() }
+#[verifier::external_body]
+pub fn verif_sid_from_str(s: &str) -> (r: Option<StreamId>) ensures r == sid_parse_text(s@), { unimplemented!() }
+impl StreamId {
+    /// ASSUMED CONTRACTS (stream.rs StreamId::millis / seq: the two halves of the packed value; both zero exactly for the id 0-0 — the packing is
+    /// C15's complete Kani unit sid_pack_order)
+    #[verifier::external_body]
+    pub fn millis(&self) -> (r: u64) ensures r == spec_millis(self.packed), { unimplemented!() }
+    #[verifier::external_body]
+    pub fn seq(&self) -> (r: u64) ensures r == spec_seq(self.packed), { unimplemented!() }
+}
+pub uninterp spec fn spec_millis(p: u128) -> u64;
+pub uninterp spec fn spec_seq(p: u128) -> u64;
+pub axiom fn axiom_zero_id(p: u128) ensures (spec_millis(p) == 0 && spec_seq(p) == 0) <==> p == 0;
+//@@ unit xadd_explicit_id stmts src/storage/commands/streams.rs handle_xadd "let id_str" upto "match storage.xadd_with_id(db, key, id, fields)"
+//@@   opt same-return-type
+//@@   rewrite RPCALL "std::str::from_utf8" verif_str_from_utf8
+//@@   rewrite RPCALL "StreamId::from_string" verif_sid_from_str
+//@@   at "if id.millis() == 0 && id.seq() == 0"
+//@@|     proof { axiom_zero_id(id.packed); }
+//@@   tail *out = id; Ok(RespFrame::ok())
+fn xadd_explicit_id(id_bytes: &Vec<u8>, out: &mut StreamId) -> (r: Result<RespFrame>)
+    ensures
+        // C06: ANY byte string in the id position is either refused with an error reply or turned into the id it spells — no byte string reaches
+        // an unchecked decoding (before the repair `XADD s "-\x80" f v` took the server down); C15: 0-0 is refused
+        match spec_utf8_text(id_bytes@) {
+            None => (r matches Ok(f) && f is Error) && *final(out) == *old(out),
+            Some(s) => match sid_parse_text(s) {
+                None => (r matches Ok(f) && f is Error) && *final(out) == *old(out),
+                Some(id) => if id.packed == 0 { (r matches Ok(f) && f is Error) && *final(out) == *old(out) } else { (r matches Ok(f) && !(f is Error)) && *final(out) == id },
+            },
+        },
+//@@ body
+//@@ end
 } // verus!
 fn main() {}
